@@ -2,7 +2,7 @@
 
 def project(kind, ins, outs):
     # compared observables: reply-code structure, store contents, status
-    if kind in ("smtp", "smtpdefer", "smtppar", "smtprm", "asm", "asmtls", "asmr", "lua", "luapar") and len(outs) >= 6:
+    if kind in ("smtp", "smtptls", "smtpdefer", "smtppar", "smtprm", "asm", "asmtls", "asmr", "lua", "luapar") and len(outs) >= 6:
         return [outs[0], outs[4], outs[5]]
     return outs
 
@@ -48,6 +48,18 @@ def shrink_candidates(inp):
     s = parts[12]
     if s == "-" or "+" in s:
         return
+    if "@" in s:
+        # "<plain>@<secure>" (STARTTLS): drop one line of either part
+        a, b = s.split("@", 1)
+        for which, raw in ((0, a), (1, b)):
+            data = bytes.fromhex(raw) if raw != "-" else b""
+            lines = data.split(b"\n")
+            for i in range(len(lines) - 1):
+                cand = (b"\n".join(lines[:i] + lines[i + 1:])).hex() or "-"
+                q = list(parts)
+                q[12] = (cand + "@" + b) if which == 0 else (a + "@" + cand)
+                yield " ".join(q)
+        return
     chunks, fin = _parse_net(s)
 
     def emit(cs, fn):
@@ -84,7 +96,7 @@ def post(run):
             continue
         naming[ins[1]] += 1
         stores[ins[11]] += 1
-        n = 0 if ins[12] == "-" else len(ins[12].split("^")[0].split("!")[0].replace("~", "")) // 2
+        n = 0 if ins[12] == "-" else len(ins[12].split("^")[0].split("!")[0].replace("~", "").replace("@", "")) // 2
         conn["pauses=%d" % min(ins[12].count("~"), 3)] += 1
         conn["ends-by-" + (ins[12].split("^")[0].split("!", 1)[1] if "!" in ins[12] else "eof")] += 1
         if "^" in ins[12]:
